@@ -24,12 +24,9 @@ CONVS = ('conv1d', 'conv2d', 'linear')
 # ----------------------------------------------------------------------------- spec
 def make_spec(seed, cfg):
     rng = random.Random(seed)
-    for _ in range(50):
-        spec = ga.gen(rng, dim=cfg['dim'], conv_head=True, bn=not cfg.get('integer'), k1d=[1, 2, 3, 3, 4, 5, 6, 7, 9])
-        if not (ga.has_dw_after_cat(spec) or ga.has_add_of_cat(spec)):
-            break
-    else:
-        return None
+    # every topology of the grammar is kept, including a depthwise conv fed by a concat and an add of a concat (their
+    # components are frozen by the conversion since the C09 repair); they are counted in the evidence distribution
+    spec = ga.gen(rng, dim=cfg['dim'], conv_head=True, bn=not cfg.get('integer'), k1d=[1, 2, 3, 3, 4, 5, 6, 7, 9])
     if cfg.get('multi'):
         spec = add_second_input(spec)
     return spec
@@ -305,6 +302,7 @@ def run_case(torch, seed, cfg):
             o['skip'] = 'no-spec'
             return o
         o['arch'] = ga.describe(spec)
+        o['topo0'] = (['dw-after-cat'] if ga.has_dw_after_cat(spec) else []) + (['add-of-cat'] if ga.has_add_of_cat(spec) else [])
         o['productions'] = spec.get('productions', [])
         integer = bool(cfg.get('integer'))
         m = ga.build(spec, seed=seed, integer=integer, dtype=torch.float64)
@@ -342,11 +340,9 @@ def run_case(torch, seed, cfg):
         o['excl'] = list(excl)
         if method == 'pit':
             handled_idx = set(i for i in convs if ga.name(i) not in excl) if cfg['auto'] else set(placed)
-            if cat_of_fixed(spec, handled_idx):
-                # a features-concat of two or more producers that PIT does not search: their constant features
-                # calculators collide on the consumer (DESIGN.md §9 row 6) — that book-keeping is decided by C09
-                o['skip'] = 'cat-of-fixed-producers'
-                return o
+            # a features-concat of two or more producers that PIT does not search (it used to make export() raise,
+            # DESIGN.md §9 row 6, repaired): kept and counted
+            o['topo'] = (['cat-of-fixed-producers'] if cat_of_fixed(spec, handled_idx) else [])
 
         # ---- the reference: the model itself, in eval mode, before conversion
         m.eval()
